@@ -511,7 +511,8 @@ std::string sqf::parser::preprocessor::impl_default::instance::handle_arg(::sqf:
             {
                 inside_word = false;
                 auto word = local_fileinfo.content.substr(word_start, local_fileinfo.off - word_start - (!part_of_word ? 1 : 0));
-                auto res = try_get_macro(word);
+                // A parameter of the macro being expanded hides a macro of the same name (as it does in the body itself)
+                auto res = param_map.find(word) != param_map.end() ? std::optional<::sqf::runtime::parser::macro>{} : try_get_macro(word);
                 if (res.has_value())
                 {
                     if (res.value().is_callable() && !part_of_word)
